@@ -319,6 +319,72 @@ def _(V, A):
     return _kernel_outs(*_kernel(V, A, False))
 
 
+# ----- transform.py -----------------------------------------------------------
+
+@traced('Transform', 'lla_to_ecef', [('lat', (-90.0, 90.0)), ('lon', LON), ('alt', (-10000.0, 4e7))])
+def _(V, A):
+    return out_vec('r', transform.lla_to_ecef(A([V('lat'), V('lon'), V('alt')])))
+
+
+def _ecef_domain(env, rng):
+    # draw ECEF points from geodetic ones so that both Olson branches are hit
+    lat = rng.uniform(-90, 90)
+    lon = rng.uniform(-180, 180)
+    alt = rng.choice([rng.uniform(-1e4, 1e5), rng.uniform(1e5, 4e7)])
+    x, y, z = transform.lla_to_ecef([lat, lon, alt])
+    return {'x': float(x), 'y': float(y), 'z': float(z)}
+
+
+@traced('Transform', 'ecef_to_lla', [('x', (-1e7, 1e7)), ('y', (-1e7, 1e7)), ('z', (-1e7, 1e7))],
+        domain=_ecef_domain, tol=1e-9)
+def _(V, A):
+    return dict(zip(('lat', 'lon', 'alt'), transform.ecef_to_lla(A([V('x'), V('y'), V('z')]))))
+
+
+@traced('Transform', 'perturb_lla', [('lat', LAT), ('lon', LON), ('alt', ALT),
+                                     ('d0', (-1e3, 1e3)), ('d1', (-1e3, 1e3)), ('d2', (-1e3, 1e3))],
+        fast=('d0', 'd1', 'd2'))
+def _(V, A):
+    return dict(zip(('lat', 'lon', 'alt'), transform.perturb_lla(
+        A([V('lat'), V('lon'), V('alt')]), A([V('d0'), V('d1'), V('d2')]))))
+
+
+@traced('Transform', 'compute_lla_difference',
+        [('lat1', LAT), ('lon1', LON), ('alt1', ALT), ('lat2', LAT), ('lon2', LON), ('alt2', ALT)])
+def _(V, A):
+    return out_vec('d', transform.compute_lla_difference(
+        A([V('lat1'), V('lon1'), V('alt1')]), A([V('lat2'), V('lon2'), V('alt2')])))
+
+
+@traced('Transform', 'mat_en_from_ll', [('lat', (-90.0, 90.0)), ('lon', LON)])
+def _(V, A):
+    return out_mat('m', transform.mat_en_from_ll(V('lat'), V('lon')))
+
+
+@traced('Transform', 'mat_en_from_ll_arr', [('lat', (-90.0, 90.0)), ('lon', LON)])
+def _(V, A):
+    return out_mat('m', transform.mat_en_from_ll(A([V('lat')]), A([V('lon')]))[0])
+
+
+@traced('Transform', 'mat_from_rph', [('roll', ANG), ('pitch', (-90.0, 90.0)), ('heading', ANG)])
+def _(V, A):
+    return out_mat('m', transform.mat_from_rph(A([V('roll'), V('pitch'), V('heading')])))
+
+
+@traced('Transform', 'mat_to_rph_of_rph', [('roll', (-179.0, 179.0)), ('pitch', PITCH), ('heading', (-179.0, 179.0))],
+        tol=1e-9)
+def _(V, A):
+    m = transform.mat_from_rph(A([V('roll'), V('pitch'), V('heading')]))
+    return dict(zip(('roll', 'pitch', 'heading'), transform.mat_to_rph(m)))
+
+
+@traced('Transform', 'lla_to_ned', [('lat', LAT), ('lon', LON), ('alt', ALT),
+                                    ('lat0', LAT), ('lon0', LON), ('alt0', ALT)], tol=1e-9)
+def _(V, A):
+    r = transform.lla_to_ned(A([[V('lat'), V('lon'), V('alt')]]), A([V('lat0'), V('lon0'), V('alt0')]))
+    return out_vec('n', r[0])
+
+
 # ----- util.py ----------------------------------------------------------------
 
 @traced('Util', 'to_180_range', [('angle', (-2000.0, 2000.0))])
